@@ -117,9 +117,13 @@ func (c *DefaultMatcher) Match(args []reflect.Value) bool {
 		args = args[1:]
 	}
 	if c.isVariadic {
-		// 可变参数需要展开参数数组
+		// 可变参数需要展开参数数组(只有最后一个参数是可变参数数组, 前面的固定参数保持不变)
 		expandArgs := make([]reflect.Value, 0)
-		for _, v := range args {
+		for j, v := range args {
+			if j < len(args)-1 {
+				expandArgs = append(expandArgs, v)
+				continue
+			}
 			rv := reflect.ValueOf(v.Interface())
 			for i := 0; i < rv.Len(); i++ {
 				expandArgs = append(expandArgs, rv.Index(i))
